@@ -5753,6 +5753,31 @@ impl RelationalEngine {
 
     #[allow(clippy::significant_drop_tightening)] // Lock scope is intentional for atomicity
     fn btree_index_add(&self, table: &str, column: &str, value: &Value, row_id: u64) -> Result<()> {
+        self.btree_index_add_inner(table, column, value, row_id, true)
+    }
+
+    /// Re-adds a B-tree entry while a transaction is rolled back. The entry existed when the
+    /// transaction started, so it is not new growth: the entry budget is not enforced here.
+    /// (Other writers may have used up the entries the transaction freed; refusing the re-add
+    /// would leave the restored row missing from the index.)
+    fn btree_index_restore(
+        &self,
+        table: &str,
+        column: &str,
+        value: &Value,
+        row_id: u64,
+    ) -> Result<()> {
+        self.btree_index_add_inner(table, column, value, row_id, false)
+    }
+
+    fn btree_index_add_inner(
+        &self,
+        table: &str,
+        column: &str,
+        value: &Value,
+        row_id: u64,
+        enforce_budget: bool,
+    ) -> Result<()> {
         let key = (table.to_string(), column.to_string());
         let ordered_key = OrderedKey::from_value(value);
         let sortable = value.sortable_key();
@@ -5769,7 +5794,7 @@ impl RelationalEngine {
             if is_new_key {
                 // Check bounds before adding new entry
                 let current = self.btree_entry_count.load(Ordering::Relaxed);
-                if current >= self.max_btree_entries {
+                if enforce_budget && current >= self.max_btree_entries {
                     return Err(RelationalError::ResultTooLarge {
                         operation: "btree_index_add".to_string(),
                         actual: current + 1,
@@ -6700,7 +6725,7 @@ impl RelationalEngine {
                         continue;
                     }
                     if let Err(e) =
-                        self.btree_index_add(table, &change.column, &change.old_value, *row_id)
+                        self.btree_index_restore(table, &change.column, &change.old_value, *row_id)
                     {
                         errors.push(format!(
                             "Failed to add btree index for {table}.{}: {e}",
@@ -6735,7 +6760,7 @@ impl RelationalEngine {
                     if !self.has_btree_index(table, col) {
                         continue;
                     }
-                    if let Err(e) = self.btree_index_add(table, col, value, *row_id) {
+                    if let Err(e) = self.btree_index_restore(table, col, value, *row_id) {
                         errors.push(format!(
                             "Failed to add btree index entry for {table}.{col}: {e}"
                         ));
